@@ -560,6 +560,7 @@ def evaluate__value_comparison_operators(self: XPathToken, context: ta.ContextTy
         msg = "cannot apply {} between {!r} and {!r}".format(self, *operands)
         raise self.error('XPTY0004', msg)
 
+    operands = [self.with_implicit_timezone(x, context) for x in operands]
     try:
         return cast(bool, getattr(operator, self.symbol)(*operands))
     except TypeError as err:
